@@ -84,10 +84,7 @@ func classifyAuthErr(e string) string {
 	case strings.Contains(e, "strconv.ParseUint"):
 		return "nonce"
 	}
-	if len(e) > 60 {
-		e = e[:60]
-	}
-	return "other(" + strings.ReplaceAll(e, " ", "_") + ")"
+	return otherClass(e)
 }
 
 func (e *authEx) Exec(op string) string {
